@@ -455,6 +455,10 @@ def one():
     print("#%d %s:%d [%s] %s" % (mid, m["file"], m["line"], m["kind"], m["source"]))
     try:
         for c in sys.argv[3:]:
+            if c.endswith(".py"):
+                p = subprocess.run(["/venv/bin/python", c], cwd="/verif", env=dict(os.environ, PYTHONPATH=w + "/src:/verif"), stdout=subprocess.PIPE, stderr=subprocess.STDOUT)
+                print(p.stdout.decode(errors="replace")[-3000:])
+                continue
             env = dict(os.environ, VERIF_BARRIL_SRC=w + "/src", VERIF_SCRATCH_OUT=scratch)
             p = subprocess.run(["./check", c, "quick"], cwd="/verif", env=env, stdout=subprocess.PIPE, stderr=subprocess.STDOUT)
             txt = p.stdout.decode(errors="replace")
